@@ -4,9 +4,9 @@ sys.path.insert(0, os.path.dirname(__file__))
 from _common import main
 import vbs_common as V
 
-BOUND = 'files of 260 and 1000 records with the fault at record 250 / 900; whole-file for loop, and header taken with next() before the loop, and a loop restarted mid-file; files of 4 records x fault position k=1..4 x 8 fault kinds (truncated record, oversized length, undecodable MTI, unknown bitmap bit, bad field length, bad typed value, bad PDS, bad ICC) x blocked/unblocked x latin_1/cp500; operator message checked through print_exception_details'
+BOUND = 'reader with its own configuration that lacks an element the packaged one has; files of 260 and 1000 records with the fault at record 250 / 900; whole-file for loop, and header taken with next() before the loop, and a loop restarted mid-file; files of 4 records x fault position k=1..4 x 8 fault kinds (truncated record, oversized length, undecodable MTI, unknown bitmap bit, bad field length, bad typed value, bad PDS, bad ICC) x blocked/unblocked x latin_1/cp500; operator message checked through print_exception_details'
 
-FAULTS = ['truncated', 'oversize', 'mti', 'bitmap', 'fieldlen', 'typed', 'pds', 'icc']
+FAULTS = ['truncated', 'oversize', 'mti', 'bitmap', 'fieldlen', 'typed', 'pds', 'icc', 'custom-config']
 
 
 def good_msg(i):
@@ -26,6 +26,9 @@ def damage(raw, fault, enc):
         r[pos:pos + 12] = 'notanumber!!'.encode(enc); return bytes(r)
     if fault == 'pds':
         m = good_msg(0); m['DE48'] = '0023abcXYZ'; return iso8583.dumps(m, encoding=enc)
+    if fault == 'custom-config':
+        # the reader is given its own configuration, which does not know DE38; the packaged one does: record k carries DE38
+        m = good_msg(0); m['DE38'] = 'A1B2C3'; return iso8583.dumps(m, encoding=enc)
     if fault == 'icc':
         m = good_msg(0); m['DE55'] = b'\x9a'; return iso8583.dumps(m, encoding=enc)
     return raw
@@ -66,7 +69,14 @@ def oracle(inp):
     data = V.ref_block(stream) if blocked else stream
     if blocked and fault == 'truncated':
         expect_ctx = V.ref_payload(data)[start:]
-    rd = IpmReader(io.BytesIO(data), encoding=enc, blocked=blocked)
+    if fault == 'custom-config':
+        import copy
+        from cardutil.config import config as _c
+        custom = copy.deepcopy(_c['bit_config'])
+        custom.pop('38', None)
+        rd = IpmReader(io.BytesIO(data), encoding=enc, blocked=blocked, iso_config=custom)
+    else:
+        rd = IpmReader(io.BytesIO(data), encoding=enc, blocked=blocked)
     got = []
     try:
         # 'head' records are pulled with next() first (the usual way of taking the file header), the rest by a for loop;
